@@ -126,6 +126,7 @@ pub fn run_case(case: &Case, cfgs: &[Cfg], acc: &mut Acc) {
         acc.count("syntax_nodes_observed", m.nodes);
         acc.max("max_ratio_x1000", m.total() * 1000 / m.nodes.max(1));
         acc.max("max_alloc_per_io_byte", m.alloc / (m.in_len + m.out_len).max(1) as u64);
+        acc.max("max_alloc_permille_of_budget", m.alloc * 1000 / (KA * (m.in_len + m.out_len) as u64 + KA_SLACK));
         match judge(&m) {
             None => {
                 acc.held += 1;
@@ -199,7 +200,9 @@ pub fn run_ladder(family: usize, widths: &[usize], max_depth: usize, acc: &mut A
 }
 
 pub fn violated(input: &str, cfg: Cfg, extra: &serde_json::Value) -> Option<bool> {
-    let text = if let (Some(f), Some(d)) = (extra["family"].as_u64(), extra["depth"].as_u64()) {
+    let text = if let (Some(f), Some(n)) = (extra["wide_family"].as_u64(), extra["size"].as_u64()) {
+        gen::wide(f as usize, n as usize)
+    } else if let (Some(f), Some(d)) = (extra["family"].as_u64(), extra["depth"].as_u64()) {
         if f >= 1000 {
             gen::nest_mixed(f, d as usize)
         } else {
@@ -210,4 +213,33 @@ pub fn violated(input: &str, cfg: Cfg, extra: &serde_json::Value) -> Option<bool
     };
     let m = measure(&text, cfg)?;
     Some(judge(&m).is_some())
+}
+
+pub const WIDE_SIZES: [usize; 11] = [1, 2, 4, 8, 16, 32, 64, 128, 256, 512, 1024];
+
+/// Flat families: the number of conversions per syntax node must stay bounded as the size grows.
+pub fn run_wide(family: usize, widths: &[usize], acc: &mut Acc) {
+    for &w in widths {
+        let cfg = Cfg::new(w, 2, false);
+        for &n in WIDE_SIZES.iter() {
+            let text = gen::wide(family, n);
+            let Some(m) = measure(&text, cfg) else {
+                acc.inconclusive("wide-item-not-formattable");
+                break;
+            };
+            acc.evaluations += 1;
+            acc.count("wide_family_points", 1);
+            acc.count("node_conversions_observed", m.total());
+            acc.count("syntax_nodes_observed", m.nodes);
+            acc.max("max_ratio_x1000", m.total() * 1000 / m.nodes.max(1));
+            acc.max("max_wide_size", n as u64);
+            if let Some((oracle, detail)) = judge(&m) {
+                let short = gen::wide(family, n.min(6));
+                acc.violations.push(viol(&short, cfg, &format!("G-WIDE family {} size {}", family, n), oracle, format!("size {}: {}", n, detail), json!({"wide_family": family, "size": n})));
+                return;
+            }
+            acc.held += 1;
+            acc.nontrivial.insert(util::hash64_parts(&["wide", &family.to_string(), &n.to_string()]));
+        }
+    }
 }
